@@ -56,11 +56,15 @@ Definition matQ (m : list (list Q)) : list (list T) := map (map ofQ) m.
 Definition scaledv (c : T) (v : list Q) : list T := map (fun x => nmul o (ofQ x) c) v.
 Definition scaled (c : T) (m : list (list Q)) : list (list T) := map (scaledv c) m.
 
-(* np.isclose(a, b) = |a - b| <= atol + rtol * |b|   with the defaults rtol=1e-05, atol=1e-08 (finite arguments) *)
-Definition hundred : T := nofnat o 100.
-Definition atol : T := ndiv o (n1 o) (nmul o (nmul o hundred hundred) (nmul o hundred hundred)).
-Definition rtol : T := ndiv o (n1 o) (nmul o (nmul o hundred hundred) (nofnat o 10)).
-Definition isclose (a b : T) : bool := nleb o (nabs o (nsub o a b)) (nadd o atol (nmul o rtol (nabs o b))).
+(* decimal float literals: m e-k = m / 10^k (one correctly rounded division of two exactly represented integers
+   = the value Python parses the literal to, for m < 2^53 and k <= 22) *)
+Fixpoint pow10 (k : nat) : T := match k with O => n1 o | S k' => nmul o (pow10 k') (nofnat o 10) end.
+Definition declit (m k : nat) : T := ndiv o (nofnat o m) (pow10 k).
+(* np.isclose(a, b, rtol, atol) = |a - b| <= atol + rtol * |b|   (finite arguments); numpy's defaults rtol=1e-05, atol=1e-08 *)
+Definition isclose_with (rt at_ : T) (a b : T) : bool := nleb o (nabs o (nsub o a b)) (nadd o at_ (nmul o rt (nabs o b))).
+Definition atol : T := declit 1 8.
+Definition rtol : T := declit 1 5.
+Definition isclose (a b : T) : bool := isclose_with rtol atol a b.
 (* np.sum of a short vector: left to right (numpy sums fewer than 8 elements sequentially) *)
 Definition suml (l : list T) : T := fold_left (nadd o) l (n0 o).
 
@@ -90,6 +94,28 @@ Definition g_d (g : gmm_in) : nat := length (hd [] (g_loc g)).
 (* scale.ndim == 3 and d == scale.shape[1] and d == scale.shape[2] *)
 Definition scale_square (d : nat) (sc : scale_arr) : bool :=
   match sc with Sc2 _ => false | Sc3 s => (d =? length (hd [] s)) && (d =? length (hd [] (hd [] s))) end.
+
+(* scale.ndim, scale.shape[1], scale.shape[2] (the last one exists only for a 3-dimensional array; the source reads it
+   behind `scale.ndim != 3 or ...`, so its value on a 2-dimensional array is never used) *)
+Definition scale_ndim (sc : scale_arr) : nat := match sc with Sc2 _ => 2 | Sc3 _ => 3 end.
+Definition scale_dim1 (sc : scale_arr) : nat := match sc with Sc2 s => length (hd [] s) | Sc3 s => length (hd [] s) end.
+Definition scale_dim2 (sc : scale_arr) : nat := match sc with Sc2 _ => 0 | Sc3 s => length (hd [] (hd [] s)) end.
+(* the three check_array calls: ensure_min_samples rows in loc / scale / pvals, at least one feature in loc *)
+Definition array_check (ml ms mp : nat) (g : gmm_in) : bool :=
+  (g_K g <? ml) || (g_d g <? 1) || (scale_len (g_scale g) <? ms) || (length (g_p g) <? mp).
+(* `if <boolean array>:` - defined for exactly one element, otherwise numpy raises "truth value ... is ambiguous" *)
+Definition truth1 (b : list bool) : option bool := match b with [x] => Some x | _ => None end.
+(* `for k in range(K): ... scale[k] ...` in the d == 1 branch: scale[k] is a row of a 2-dimensional scale (a
+   3-dimensional one ends in a numpy error);  in the d != 1 branch: scale[k] is a matrix of a 3-dimensional scale *)
+Definition for_rows (sc : scale_arr) (f : nat -> list T -> option gmm_err) : option gmm_err :=
+  match sc with Sc2 s => first_some (map (fun kr => f (fst kr) (snd kr)) (indexed s)) | Sc3 _ => Some EArray end.
+Definition for_mats (sc : scale_arr) (f : nat -> list (list T) -> option gmm_err) : option gmm_err :=
+  match sc with Sc3 s => first_some (map (fun km => f (fst km) (snd km)) (indexed s)) | Sc2 _ => Some ENotSquare end.
+(* `for k in range(len(loc)): X += [generator.<draw>(loc[k], <f(scale[k])>, size=(n,))]` *)
+Definition comp_calls_rows (sc : scale_arr) (loc : list (list T)) (f : list T -> list T -> call) : list call :=
+  match sc with Sc2 s => map (fun lv => f (fst lv) (snd lv)) (combine loc s) | Sc3 _ => [] end.
+Definition comp_calls_mats (sc : scale_arr) (loc : list (list T)) (f : list T -> list (list T) -> call) : list call :=
+  match sc with Sc3 s => map (fun lm => f (fst lm) (snd lm)) (combine loc s) | Sc2 _ => [] end.
 
 Definition mget (m : list (list T)) (i j : nat) : T := nth j (nth i m []) (n0 o).
 (* np.allclose(scale[k], scale[k].T) *)
@@ -153,14 +179,17 @@ Definition gmm_run (rs : list draw) : option (list (list T) * list nat) :=
 (* ---------------------------------------------------------------- multivariate_student_t *)
 (* d = len(loc); if scale.shape[0] != d or scale.shape[1] != d: raise ValueError *)
 Definition student_check (loc : list T) (scale : list (list T)) : bool :=
-  (length scale =? length loc) && (length (hd [] scale) =? length loc).
+  let d := length loc in negb (negb (d =? length scale) || negb (d =? length (hd [] scale))).
 (* nx = generator.multivariate_normal(np.zeros(d), scale, size=n);  u = generator.chisquare(df, n) *)
 Definition student_calls (n : nat) (loc : list T) (scale : list (list T)) (df : T) : list call :=
-  [CMvn (map (fun _ => n0 o) loc) scale n; CChisq df n].
-(* X = np.sqrt(df / u) * nx + loc.reshape((1, -1)) *)
+  [CMvn (repeat (n0 o) (length loc)) scale n; CChisq df n].
+(* an n x d array computed entry-wise from a column u (n,1), a matrix nx (n,d) and a row loc (1,d) by broadcasting *)
+Definition entry_rows (f : T -> T -> T -> T) (loc : list T) (nx : list (list T)) (u : list T) : list (list T) :=
+  map (fun ru => map (fun zl => f (snd ru) (fst zl) (snd zl)) (combine (fst ru) loc)) (combine nx u).
+(* X = np.sqrt(df / u) * nx + loc.reshape((1, -1))         (one entry) *)
+Definition student_entry (df u_i nx_ij loc_j : T) : T := nadd o (nmul o (nsqrt o (ndiv o df u_i)) nx_ij) loc_j.
 Definition student_rows (df : T) (loc : list T) (nx : list (list T)) (u : list T) : list (list T) :=
-  map (fun ru => map (fun zl => nadd o (nmul o (nsqrt o (ndiv o df (snd ru))) (fst zl)) (snd zl)) (combine (fst ru) loc))
-      (combine nx u).
+  entry_rows (student_entry df) loc nx u.
 Definition student_run (df : T) (loc : list T) (rs : list draw) : option (list (list T)) :=
   match rs with [DMat nx; DVec u] => Some (student_rows df loc nx u) | _ => None end.
 
